@@ -25,7 +25,7 @@ import (
 	"github.com/dolthub/dolt/go/zzverif/vsql"
 )
 
-const c31Rule = "rapid-generated histories over one table t(pk INT PRIMARY KEY, c0 INT, c1 INT, c2 VARCHAR): an initial commit with 2..5 rows, main with 2..4 further commits and a branch forked at a drawn main commit with 2..4 commits, each commit 1..4 INSERT/UPDATE(1-2 columns)/DELETE over keys 0..7 (a third of the cases: both branches edit anything; a third: the branches edit disjoint key halves/columns; a third: additionally every commit of the branch touches its own key, so reordered plans replay without conflict); per case 2 drawn cherry-picks and 2 drawn reverts of any non-initial commit onto a scratch branch at any commit, the two corollaries, and one interactive rebase of the branch onto a drawn main commit at/after the fork with a drawn plan (actions pick/drop/squash/fixup/reword, drawn order). Oracle: vsql.Merge3 with the bases the property states; merged rows, conflict rows (base/ours/theirs), data after --abort; rebase: number of new commits == picks+rewords, every new commit's data == the model replay prefix, final data == dolt_cherry_pick replay of the kept commits. Non-trivial: a cherry-pick or revert of a commit that is not the scratch HEAD whose rows overlap rows changed by other commits between base and HEAD (cell-wise merge or conflict), and an executed rebase plan that is not a plain in-order replay (has a squash/fixup, a reorder or a drop; see the class histogram for each); distinct by edit sequence + choices."
+const c31Rule = "rapid-generated histories over one table t(pk INT PRIMARY KEY, c0 INT, c1 INT, c2 VARCHAR): an initial commit with 2..5 rows, main with 2..4 further commits and a branch forked at a drawn main commit with 2..4 commits, each commit 1..4 INSERT/UPDATE(1-2 columns)/DELETE over keys 0..7, or (1 in 3-4 commits after a branch's first) an exact undo of the previous commit's edits, whole or for one key (a third of the cases: both branches edit anything; a third: the branches edit disjoint key halves/columns; a third: additionally every commit of the branch touches its own key, so reordered plans replay without conflict); per case 2 drawn cherry-picks and 2 drawn reverts of any non-initial commit onto a scratch branch at any commit, the two corollaries, and one interactive rebase of the branch onto a drawn main commit at/after the fork with a drawn plan (actions pick/drop/squash/fixup/reword, drawn order; in 3 of 4 cases that have an undo commit it is squashed/fixed-up into the commit it undoes, kept adjacent wherever the pair lands, so net-zero folds are common). Oracle: vsql.Merge3 with the bases the property states; merged rows, conflict rows (base/ours/theirs), data after --abort; rebase: number of new commits == picks+rewords, every new commit's data == the model replay prefix, final data == dolt_cherry_pick replay of the kept commits. Non-trivial: a cherry-pick or revert of a commit that is not the scratch HEAD whose rows overlap rows changed by other commits between base and HEAD (cell-wise merge or conflict), and an executed rebase plan that is not a plain in-order replay (has a squash/fixup, a reorder or a drop; see the class histogram for each); distinct by edit sequence + choices."
 
 var c31Cols = []string{"pk", "c0", "c1", "c2"}
 
@@ -115,6 +115,58 @@ func (c *c31Case) editKey(label, pk string, n int) {
 		c.work.Put(row)
 		c.op("ins(%s)", strings.Join(row, ","))
 	}
+}
+
+func c31Lit(v string, str bool) string {
+	if v == vsql.Null {
+		return "NULL"
+	}
+	if str {
+		return "'" + v + "'"
+	}
+	return v
+}
+
+// undo edits the working set (which holds commit x's data) so that the rows commit x changed
+// — all of them, or one drawn key — are exactly as they were in x's parent.
+func (c *c31Case) undo(label string, x int, oneKey bool) {
+	before, after := c.commits[c.commits[x].Parent].State, c.commits[x].State
+	var keys []string
+	seen := map[string]bool{}
+	for _, k := range append(before.Keys(), after.Keys()...) {
+		if seen[k] {
+			continue
+		}
+		seen[k] = true
+		b, hb := before.Rows[k]
+		a, ha := after.Rows[k]
+		if hb != ha || (hb && !b.Equal(a)) {
+			keys = append(keys, k)
+		}
+	}
+	sort.Strings(keys)
+	if len(keys) == 0 {
+		return
+	}
+	if oneKey {
+		keys = []string{rapid.SampledFrom(keys).Draw(c.rt, label+".undokey")}
+	}
+	for _, k := range keys {
+		b, hb := before.Rows[k]
+		switch {
+		case !hb:
+			c.exec("DELETE FROM t WHERE pk = " + k)
+			c.work.Delete(k)
+		default:
+			if _, ok := c.work.Rows[k]; ok {
+				c.exec(fmt.Sprintf("UPDATE t SET c0 = %s, c1 = %s, c2 = %s WHERE pk = %s", c31Lit(b[1], false), c31Lit(b[2], false), c31Lit(b[3], true), k))
+			} else {
+				c.exec(fmt.Sprintf("INSERT INTO t VALUES (%s,%s,%s,%s)", k, c31Lit(b[1], false), c31Lit(b[2], false), c31Lit(b[3], true)))
+			}
+			c.work.Put(b)
+		}
+	}
+	c.op("undo(#%d keys %s)", x, strings.Join(keys, ","))
 }
 
 func (c *c31Case) update(l, pk string, side int) {
@@ -353,9 +405,22 @@ func TestVerif_C31(t *testing.T) {
 		// main
 		mainIdx := []int{init}
 		nm := rapid.IntRange(2, 4).Draw(rt, "main.n")
+		// undoOf[x] = p: commit x exactly reverts what its parent commit p did (wholeUndo: for every
+		// key p changed; otherwise for one of them)
+		undoOf, wholeUndo := map[int]int{}, map[int]bool{}
 		for i := 0; i < nm; i++ {
+			last := mainIdx[len(mainIdx)-1]
+			if i >= 1 && rapid.IntRange(0, 3).Draw(rt, fmt.Sprintf("m%d.undo", i)) == 0 {
+				one := rapid.IntRange(0, 2).Draw(rt, fmt.Sprintf("m%d.undo1", i)) == 0
+				c.undo(fmt.Sprintf("m%d", i), last, one)
+				x := c.commit(last, fmt.Sprintf("m%d", i+1))
+				undoOf[x], wholeUndo[x] = last, c.commits[x].State.Equal(c.commits[c.commits[last].Parent].State)
+				mainIdx = append(mainIdx, x)
+				c.classes["undo_commit"] = true
+				continue
+			}
 			c.edits(fmt.Sprintf("m%d", i), rapid.IntRange(1, 4).Draw(rt, fmt.Sprintf("m%d.n", i)), sideM)
-			mainIdx = append(mainIdx, c.commit(mainIdx[len(mainIdx)-1], fmt.Sprintf("m%d", i+1)))
+			mainIdx = append(mainIdx, c.commit(last, fmt.Sprintf("m%d", i+1)))
 		}
 		// other, forked at a main commit
 		forkPos := rapid.IntRange(0, len(mainIdx)-1).Draw(rt, "fork")
@@ -367,6 +432,16 @@ func TestVerif_C31(t *testing.T) {
 		no := rapid.IntRange(2, 4).Draw(rt, "other.n")
 		prev := fork
 		for i := 0; i < no; i++ {
+			if i >= 1 && rapid.IntRange(0, 2).Draw(rt, fmt.Sprintf("o%d.undo", i)) == 0 {
+				one := rapid.IntRange(0, 2).Draw(rt, fmt.Sprintf("o%d.undo1", i)) == 0
+				c.undo(fmt.Sprintf("o%d", i), prev, one)
+				x := c.commit(prev, fmt.Sprintf("o%d", i+1))
+				undoOf[x], wholeUndo[x] = prev, c.commits[x].State.Equal(c.commits[c.commits[prev].Parent].State)
+				prev = x
+				otherIdx = append(otherIdx, prev)
+				c.classes["undo_commit"] = true
+				continue
+			}
 			if mode == 2 {
 				c.editKey(fmt.Sprintf("o%d", i), strconv.Itoa(4+i), rapid.IntRange(1, 3).Draw(rt, fmt.Sprintf("o%d.n", i)))
 			} else {
@@ -464,6 +539,43 @@ func TestVerif_C31(t *testing.T) {
 			}
 			plan[i] = step{x, a}
 		}
+		// fold an undo commit into the commit it undoes (kept adjacent, wherever the pair lands in
+		// the drawn order), so that net-zero squash/fixup steps are common
+		var undoPairs []int
+		for _, x := range otherIdx {
+			if p, ok := undoOf[x]; ok && p != fork {
+				undoPairs = append(undoPairs, x)
+			}
+		}
+		if len(undoPairs) > 0 && rapid.IntRange(0, 3).Draw(rt, "rebase.foldundo") != 0 {
+			u := rapid.SampledFrom(undoPairs).Draw(rt, "rebase.foldwhich")
+			act := rapid.SampledFrom([]string{"fixup", "squash"}).Draw(rt, "rebase.foldact")
+			var np []step
+			for _, st := range plan {
+				if st.commit == u {
+					continue
+				}
+				if st.commit == undoOf[u] {
+					if st.action == "drop" {
+						st.action = "pick"
+					}
+					np = append(np, st, step{u, act})
+					continue
+				}
+				np = append(np, st)
+			}
+			plan = np
+			// the first kept action must still be pick/reword
+			for i := range plan {
+				if plan[i].action == "drop" {
+					continue
+				}
+				if plan[i].action == "squash" || plan[i].action == "fixup" {
+					plan[i].action = "pick"
+				}
+				break
+			}
+		}
 		replay := func(plan []step) (states []*vsql.Table, ok bool, why string) {
 			state := c.commits[upstream].State
 			first := true
@@ -516,15 +628,23 @@ func TestVerif_C31(t *testing.T) {
 				pos[x] = i
 			}
 			last := -1
+			prevKept, prevAct := -1, ""
 			for _, s := range plan {
 				desc = append(desc, fmt.Sprintf("%s #%d", s.action, s.commit))
 				if s.action == "squash" || s.action == "fixup" {
 					folded = true
+					if p, isUndo := undoOf[s.commit]; isUndo && p == prevKept {
+						c.classes["rebase_fold_of_undo_commit"] = true
+						if wholeUndo[s.commit] && (prevAct == "pick" || prevAct == "reword") {
+							c.classes["rebase_netzero_fold"] = true // the amended commit ends up equal to its parent
+						}
+					}
 				}
 				if s.action == "drop" {
 					dropped = true
 					continue
 				}
+				prevKept, prevAct = s.commit, s.action
 				if pos[s.commit] < last {
 					reordered = true
 				}
